@@ -13,6 +13,7 @@ import (
 	"time"
 
 	"github.com/asticode/go-astits"
+	"github.com/bluenviron/mediacommon/v2/pkg/codecs/mpeg4audio"
 	"github.com/bluenviron/mediacommon/v2/pkg/formats/mpegts"
 )
 
@@ -25,7 +26,6 @@ import (
 
 var (
 	verifTSClientTracks []*mpegts.Track
-	verifTSIn           []*verifTSRecord
 	verifTSCbVideo      = map[*mpegts.Track]mpegts.ReaderOnDataH264Func{}
 	verifTSCbAudio      = map[*mpegts.Track]mpegts.ReaderOnDataMPEG4AudioFunc{}
 )
@@ -49,7 +49,7 @@ func verifStub_TSReaderRead(r *mpegts.Reader) error {
 	if b[0] != 'T' || b[3] != 0xEE {
 		return &verifBlobError{"not a TS record"}
 	}
-	rec := verifTSIn[int(b[1])|int(b[2])<<8]
+	rec := verifTSLog[int(b[1])|int(b[2])<<8]
 	if rec.video {
 		if cb := verifTSCbVideo[rec.track]; cb != nil {
 			return cb(rec.pts, rec.dts, rec.au)
@@ -62,17 +62,40 @@ func verifStub_TSReaderRead(r *mpegts.Reader) error {
 	return nil
 }
 
-func verifTSBlob(idx int) []byte { return []byte{'T', byte(idx), byte(idx >> 8), 0xEE} }
+// vTSSeg builds one segment with mediacommon's MPEG-TS writer (symbolically: the writer stub of
+// mux_stubs.go, which logs the sample and emits a tag the reader stub resolves; natively: real MPEG-TS).
+type vTSSeg struct {
+	buf bytes.Buffer
+	w   *mpegts.Writer
+}
+
+func verifNewTSSeg(tracks []*mpegts.Track) *vTSSeg {
+	s := &vTSSeg{}
+	s.w = &mpegts.Writer{W: &s.buf, Tracks: tracks}
+	if err := s.w.Initialize(); err != nil {
+		panic(err)
+	}
+	return s
+}
+
+func verifHasNALU(au [][]byte, typ byte, tag byte) bool {
+	for _, n := range au {
+		if len(n) == 2 && n[0] == typ && n[1] == tag {
+			return true
+		}
+	}
+	return false
+}
 
 // VerifH_C10_ts: a well-formed MPEG-TS stream with 33-bit timestamps anywhere on the circle
 // (wrap inside the stream included): video + optional audio, 1..2 segments, any file order of
 // video and audio samples after the first video sample, with/without PROGRAM-DATE-TIME.
 func VerifH_C10_ts() {
-	verifTSIn = nil
+	verifTSLog = nil
 	verifTSCbVideo = map[*mpegts.Track]mpegts.ReaderOnDataH264Func{}
 	verifTSCbAudio = map[*mpegts.Track]mpegts.ReaderOnDataMPEG4AudioFunc{}
 	vt := &mpegts.Track{Codec: &mpegts.CodecH264{}}
-	at := &mpegts.Track{Codec: &mpegts.CodecMPEG4Audio{}}
+	at := &mpegts.Track{Codec: &mpegts.CodecMPEG4Audio{Config: mpeg4audio.Config{Type: 2, SampleRate: 44100, ChannelCount: 2}}}
 	withAudio := verifBool("withaudio")
 	verifTSClientTracks = []*mpegts.Track{vt}
 	if withAudio {
@@ -96,7 +119,7 @@ func VerifH_C10_ts() {
 	tag := byte(0)
 	lastSegFirst := int64(0)
 	for s := 0; s < nseg; s++ {
-		var payload []byte
+		seg := verifNewTSSeg(verifTSClientTracks)
 		segFirst := tv - T0
 		prevSegFirst := lastSegFirst
 		lastSegFirst = segFirst
@@ -104,14 +127,19 @@ func VerifH_C10_ts() {
 		na := 0
 		if withAudio {
 			na = verifChoice("naudio", verifParam("MAXA", 2)+1)
+			if s == 0 && na == 0 {
+				na = 1 // a demuxer needs data of every declared track in the first segment to find its parameters
+			}
 		}
 		audioFirst := s > 0 && na > 0 && verifBool("audiofirst") // file order inside later segments is free
+		if audioFirst && na < 2 {
+			na = 2 // a real demuxer hands a PES over when the next one of the same stream starts: two audio units put the first one before the video
+		}
 		emitV := func() {
 			for k := 0; k < nv; k++ {
 				off := verifRangeI64("vptsoff", 0, 1<<16)
-				rec := &verifTSRecord{track: vt, video: true, dts: tv % wrap, pts: (tv + off) % wrap, au: [][]byte{{5, tag}}}
-				verifTSIn = append(verifTSIn, rec)
-				payload = append(payload, verifTSBlob(len(verifTSIn)-1)...)
+				err := seg.w.WriteH264(vt, (tv+off)%wrap, tv%wrap, [][]byte{{5, tag}})
+				verifAssume(err == nil)
 				want = append(want, exp{track: 0, dts: tv - T0, pts: tv + off - T0, data: tag, seg: s, segFirst: segFirst})
 				tag++
 				tv += verifRangeI64("vdelta", 1, 1<<20)
@@ -119,9 +147,8 @@ func VerifH_C10_ts() {
 		}
 		emitA := func() {
 			for k := 0; k < na; k++ {
-				rec := &verifTSRecord{track: at, dts: ta % wrap, pts: ta % wrap, au: [][]byte{{0xA0, tag}}}
-				verifTSIn = append(verifTSIn, rec)
-				payload = append(payload, verifTSBlob(len(verifTSIn)-1)...)
+				err := seg.w.WriteMPEG4Audio(at, ta%wrap, [][]byte{{0xA0, tag}})
+				verifAssume(err == nil)
 				want = append(want, exp{track: 1, dts: ta - T0, pts: ta - T0, data: tag, seg: s, segFirst: segFirst})
 				tag++
 				ta += verifRangeI64("adelta", 1, 1<<20)
@@ -134,7 +161,7 @@ func VerifH_C10_ts() {
 			emitV()
 			emitA()
 		}
-		payloads = append(payloads, payload)
+		payloads = append(payloads, append([]byte(nil), seg.buf.Bytes()...))
 		if verifBool("datetime") {
 			// wall clock jumps between segments are allowed, except where non-leading units precede the
 			// segment's first leading unit in the file: those are anchored through the previous segment, which
@@ -201,7 +228,11 @@ func VerifH_C10_ts() {
 			g := got[gi]
 			gi++
 			verifAssert("C10", "unit-times-normalised", g.dts == e.dts && g.pts == e.pts)
-			verifAssert("C10", "unit-bytes", len(g.data) == 1 && bytes.Equal(g.data[0][1:], []byte{e.data}))
+			if ti == 0 {
+				verifAssert("C10", "unit-bytes", verifHasNALU(g.data, 5, e.data))
+			} else {
+				verifAssert("C10", "unit-bytes", verifHasNALU(g.data, 0xA0, e.data))
+			}
 			if dtl[e.seg] != nil {
 				wantAbs := dtl[e.seg].Add(timestampToDuration(e.dts-e.segFirst, 90000))
 				// "when available": always for the leading track of a dated segment
@@ -218,7 +249,7 @@ func VerifH_C10_ts() {
 // track processor sleeps on a pacing timer: the stream processor blocks in push; Close must still
 // terminate every routine.
 func VerifH_C12_tsBackpressure() {
-	verifTSIn = nil
+	verifTSLog = nil
 	verifTSCbVideo = map[*mpegts.Track]mpegts.ReaderOnDataH264Func{}
 	verifTSCbAudio = map[*mpegts.Track]mpegts.ReaderOnDataMPEG4AudioFunc{}
 	verifElapsedZero = true
@@ -226,26 +257,37 @@ func VerifH_C12_tsBackpressure() {
 	vt := &mpegts.Track{Codec: &mpegts.CodecH264{}}
 	verifTSClientTracks = []*mpegts.Track{vt}
 	N := clientMPEGTSSampleQueueSize + 2 + verifChoice("extra", 3)
-	var payload []byte
+	seg := verifNewTSSeg(verifTSClientTracks)
 	for k := 0; k < N; k++ {
-		rec := &verifTSRecord{track: vt, video: true, dts: int64(k) * 3000, pts: int64(k) * 3000, au: [][]byte{{5, byte(k)}}}
-		verifTSIn = append(verifTSIn, rec)
-		payload = append(payload, verifTSBlob(len(verifTSIn)-1)...)
+		err := seg.w.WriteH264(vt, int64(k)*30000, int64(k)*30000, [][]byte{{5, byte(k)}})
+		verifAssume(err == nil)
 	}
+	payload := append([]byte(nil), seg.buf.Bytes()...)
 	rp := &clientRoutinePool{}
 	rp.initialize()
 	q := &clientSegmentQueue{}
 	q.initialize()
 	q.push(&segmentData{payload: payload})
-	sd := &vSD{}
+	sd := &vSD{nativePacing: !verifSymbolic()}
 	cl := &vClientStub{ready: make(chan struct{})}
 	proc := &clientStreamProcessorMPEGTS{onDecodeError: func(error) {}, isLeading: true, segmentQueue: q, rp: rp, streamDownloader: sd, client: cl}
 	proc.initialize()
 	rp.add(proc)
 	verifQuiesce()
 	verifReach("backpressure")
-	verifAssert("C12", "stream-processor-throttled-not-failed", verifLiveThreads() >= 2)
-	rp.close() // Close while the queue is full: must return (a deadlock here is reported by the engine)
-	verifAssert("C12", "no-routine-left-after-close", verifLiveThreads() == 0)
+	if verifSymbolic() {
+		verifAssert("C12", "stream-processor-throttled-not-failed", verifLiveThreads() >= 2)
+		rp.close() // Close while the queue is full: must return (a deadlock here is reported by the engine)
+		verifAssert("C12", "no-routine-left-after-close", verifLiveThreads() == 0)
+	} else {
+		time.Sleep(300 * time.Millisecond) // the track processor is asleep pacing a sample, the queue fills up
+		closed := make(chan struct{})
+		go func() { rp.close(); close(closed) }()
+		select {
+		case <-closed:
+		case <-time.After(3 * time.Second):
+			verifFail("C12", "no-routine-left-after-close")
+		}
+	}
 	verifReach("end")
 }
